@@ -30,7 +30,7 @@ def P(theorems, quick, thorough, components, status, rule, explanation, assumpti
 PROPS = {
     'C01': P(
         ['C01_parse_total', 'C01_lexer_terminates', 'C01_renderers_total', 'C01_to_postgres_total', 'C01_to_param_postgres_total', 'C01_no_format_error'],
-        [('corpus', 0), ('enum', 1500), ('rand', 5000), ('lex', 2500), ('big', 0)],
+        [('corpus', 0), ('enum', 1500), ('rand', 5000), ('lex', 2500), ('big', 0), ('nearmiss', 0)],
         [('corpus', 0), ('enum', 20000), ('rand', 60000), ('lex', 30000), ('big', 0), ('trees', 20000)],
         PARSE + PRINT + SQL,
         'full: parser loop total within 4n+4 steps for every token list; all five renderers and both public wrappers return on every parse result; no bad formatting verb. Wall-clock cost of fmt/encoding-json is measured (observer watchdog), not proved.',
@@ -75,8 +75,8 @@ PROPS = {
         []),
     'C06': P(
         ['C06_accepted_tree_is_a_derivation'],
-        [('corpus', 0), ('enum', 1500), ('rand', 5000), ('lex', 1500)],
-        [('corpus', 0), ('enum', 30000), ('rand', 80000)],
+        [('corpus', 0), ('enum', 1500), ('rand', 5000), ('lex', 1500), ('nearmiss', 0)],
+        [('corpus', 0), ('enum', 30000), ('rand', 80000), ('lex', 20000), ('nearmiss', 0)],
         PARSE,
         'full: every accepted token list is laid over by its tree as a derivation (Lay), for all token lists.',
         'all token sequences to length 3/4 over 26 symbols x default field, random structured and damaged queries; non-trivial = accepted',
@@ -108,7 +108,7 @@ PROPS = {
         '', []),
     'C10': P(
         ['C10_parse_all_or_nothing', 'C10_returned_tree_wellformed', 'C10_to_postgres_shape', 'C10_to_param_postgres_shape'],
-        [('corpus', 0), ('enum', 1500), ('rand', 5000), ('lex', 1500)],
+        [('corpus', 0), ('enum', 1500), ('rand', 5000), ('lex', 1500), ('nearmiss', 0)],
         [('corpus', 0), ('enum', 30000), ('rand', 80000), ('lex', 20000)],
         PARSE + ['ToPostgres', 'ToParameterizedPostgres'],
         'full: Parse returns a tree xor an error; every returned tree passes Validate and the independent shape predicate; ToPostgres/ToParameterizedPostgres result shapes.',
